@@ -369,4 +369,48 @@ theorem good_from_httpstream (σ : St) (h : Reach σ) (hc : σ.closed = false) (
         rw [isHdr_shape, hev] at this
         cases this
 
+/-! ### audit round 6 (cross-audit by b-c04): non-vacuity witnesses on a state with BUFFERED data
+
+  The server lowers INITIAL_WINDOW_SIZE to 3, stream 1 is opened and hands over 5 body bytes: 3 go out, 2 are buffered.
+  This instantiates the hypotheses of the BufferedH2Connection theorems (`StreamOk`, `CanSubmit`, `c.buf s ≠ []`, `Reach2`,
+  `liveS`, `E2 … = false`) and of the C03 glue theorems (`good2_from_httpstream`, `good_from_httpstream`) on concrete,
+  non-initial values. -/
+
+def au3 : St :=
+  ((St.init.step (.server [.settings none (some 3) none])).step (.client 1 (.hdr false))).step (.client 1 (.data [1, 2, 3, 4, 5]))
+
+private theorem au3_reach2 : Reach2 au3 := by
+  refine Reach2.client _ _ _ (Reach2.client _ _ _ (Reach2.server _ _ Reach2.init) ?_ ?_) ?_ ?_
+  all_goals first | (unfold Good; decide) | (unfold Good2; decide)
+
+example : au3.conn.out = [.hdr 1 false, .data 1 [1, 2, 3] false] ∧ au3.conn.buf 1 = [⟨[4, 5], false⟩] ∧
+    au3.conn.liveS 1 = true ∧ au3.closed = false ∧ alookup 1 au3.ours = some 1 := by decide
+-- hypotheses of buffered_bytes_conserved_connection / stream_ok_invariant / trailers_after_data / can_submit_derived
+example : StreamOk au3.conn 1 := stream_ok_reachable au3 au3_reach2 1
+example : CanSubmit au3.conn 1 := (can_submit_derived au3 au3_reach2 1 1 (by decide) (by decide)).1 (by decide)
+example : au3.conn.buf 1 ≠ [] := by decide
+example : ((au3.conn.sendTrailers 1).out = au3.conn.out) := (trailers_after_data au3.conn 1 (by decide)).1
+-- the conservation statements say something here: 5 bytes held, 3 of them on the wire; a WINDOW_UPDATE moves the rest
+example : au3.conn.held 1 = [1, 2, 3, 4, 5] ∧ dataOf 1 au3.conn.out = [1, 2, 3] ∧ dataBytes (fwOf 1 au3) = [1, 2, 3, 4, 5] := by decide
+example : dataOf 1 (au3.step (.server [.winUpd 1 10])).conn.out = [1, 2, 3, 4, 5] ∧
+    (au3.step (.server [.winUpd 1 10])).conn.buf 1 = [] := by decide
+-- … and the model does refuse: the same data on a stream the server has reset is not sent
+example : ((au3.step (.server [.reset 1])).step (.client 1 (.data [9]))).conn.out = au3.conn.out := by decide
+
+/-- a run of the C03 model of HttpStream that hands four events to the server connection (head, data, trailers, end) -/
+def auH2 : List C03.Ev :=
+  [.reqHeaders false 0 .norm false, .reqData 3, .hookDone .requestheaders .pass, .reqTrailers, .reqEOM,
+   .hookDone .request .pass, .connDone true]
+
+example : C03.srvEvents (C03.run 0 0 auH2).trace = [.hdr false, .data [], .trailers, .eom] := by decide
+-- the hypothesis `hsrc` of good2_from_httpstream / good_from_httpstream holds for au3, next event = trailers
+example : Good2 au3 1 .trailers := good2_from_httpstream au3 1 .trailers 0 0 auH2 [.eom] (by decide)
+example : Good au3 1 .trailers :=
+  good_from_httpstream au3 (reach2_is_reach au3 au3_reach2) (by decide) 1 .trailers 0 0 auH2 [.eom] (by decide)
+
+-- audit note: the `crashed` flag (KeyError in `their_stream_id[...]`) IS reachable in the model under `Reach`, for a segment
+-- hyper-h2 would never report (trailers on a stream id that was never opened); "cannot happen" rests on hyper-h2, not on a theorem
+example : (St.init.step (.server [.respTrailers 7])).crashed = true ∧ Reach (St.init.step (.server [.respTrailers 7])) :=
+  ⟨by decide, Reach.server _ _ Reach.init⟩
+
 end MitmVerif.Props.C05
